@@ -2,6 +2,10 @@
 
 An annotated tree is a tree of `vlib.dtcodec` plus `unit`, `fmt` on double / scaled leaves and `name` on enums — everything
 `export_datatype()` writes and `copy()` keeps.  `erase()` gives the plain tree back.
+
+Derived classes (`CType` of lean/FrappyModel/Datatypes/Variants.lean) are the node of the kind they are described as plus a class
+mark: `"cls": "text"` on a string node (TextType), `"cls": "limits"` on a tuple node with two identical members (LimitsType),
+`"cls": "status"` on a tuple node (enum, unlimited string) (StatusType).  Without the marks (`strip_cls`) the tree is the kind tree.
 """
 from frappy.datatypes import ArrayOf, BLOBType, BoolType, EnumType, FloatRange, IntRange, ScaledInteger, \
     StringType, StructOf, TupleOf, LimitsType, StatusType, TextType
@@ -15,8 +19,15 @@ def _f(j):
 
 def dt_to_di(dt):
     """real datatype object -> annotated tree (reads what the object actually holds)"""
-    if isinstance(dt, (LimitsType, StatusType, TextType)):
-        raise ValueError('not one of the ten SECoP kinds: %r' % dt)
+    if isinstance(dt, LimitsType):
+        if len(dt.members) != 2 or dt.members[0] is not dt.members[1] and dt_to_di(dt.members[0]) != dt_to_di(dt.members[1]):
+            raise ValueError('LimitsType with different members: %r' % (dt,))
+        m = dt_to_di(dt.members[0])
+        return {'t': 'tuple', 'cls': 'limits', 'elems': [m, dt_to_di(dt.members[1])]}
+    if isinstance(dt, StatusType):
+        return {'t': 'tuple', 'cls': 'status', 'elems': [dt_to_di(m) for m in dt.members]}
+    if isinstance(dt, TextType):
+        return {'t': 'string', 'cls': 'text', 'min': int(dt.minchars), 'max': int(dt.maxchars), 'utf8': bool(dt.isUTF8)}
     if isinstance(dt, FloatRange):
         return {'t': 'double', 'min': fj(dt.min), 'max': fj(dt.max), 'ar': fj(dt.absolute_resolution),
                 'rr': fj(dt.relative_resolution), 'unit': dt.unit, 'fmt': dt.fmtstr}
@@ -46,6 +57,16 @@ def dt_to_di(dt):
 def di_to_dt(tree):
     """annotated tree -> real datatype object, through the repository's own constructors"""
     t = tree['t']
+    cls = tree.get('cls')
+    if cls == 'text' and t == 'string':
+        return TextType(tree['max'])
+    if cls == 'limits' and t == 'tuple':
+        return LimitsType(di_to_dt(tree['elems'][0]))
+    if cls == 'status' and t == 'tuple':
+        # StatusType(first, *standard names, **other members): every member given by name and code
+        return StatusType('', **dict((k, v) for k, v in tree['elems'][0]['members']))
+    if cls:
+        raise ValueError('class mark %r on a %s node' % (cls, t))
     if t == 'double':
         return FloatRange(_f(tree['min']), _f(tree['max']), absolute_resolution=_f(tree['ar']),
                           relative_resolution=_f(tree['rr']), unit=tree.get('unit', ''), fmtstr=tree.get('fmt', '%g'))
@@ -117,3 +138,44 @@ def subtrees(tree, path=()):
     elif t == 'struct':
         for k, m in tree['members']:
             yield from subtrees(m, path + (k,))
+
+
+def strip_cls(tree):
+    """the kind tree of a tree with class marks (what the datatype is described as)"""
+    t = tree['t']
+    out = {k: v for k, v in tree.items() if k != 'cls'}
+    if t == 'array':
+        out['elem'] = strip_cls(tree['elem'])
+    elif t == 'tuple':
+        out['elems'] = [strip_cls(e) for e in tree['elems']]
+    elif t == 'struct':
+        out['members'] = [[k, strip_cls(m)] for k, m in tree['members']]
+    return out
+
+
+def classes(tree):
+    """the class marks occurring in a tree"""
+    return sorted(set(sub['cls'] for _, sub in subtrees(tree) if sub.get('cls')))
+
+
+def node_kind(tree):
+    """class mark, or kind, of the root"""
+    return tree.get('cls') or tree['t']
+
+
+def skeleton(tree):
+    """the classes of a tree, kinds and properties left out (`Skel` of Variants.lean)"""
+    t, cls = tree['t'], tree.get('cls')
+    if cls == 'text':
+        return 'text'
+    if cls == 'status':
+        return 'status'
+    if cls == 'limits':
+        return {'limits': skeleton(tree['elems'][0])}
+    if t == 'array':
+        return {'array': skeleton(tree['elem'])}
+    if t == 'tuple':
+        return {'tuple': [skeleton(e) for e in tree['elems']]}
+    if t == 'struct':
+        return {'struct': [[k, skeleton(m)] for k, m in tree['members']]}
+    return 'leaf'
